@@ -636,6 +636,8 @@ type c27Env struct {
 	c    *Ctx
 	root string // real directory standing for /S, with subdirectories d1, d2
 	fx   bool   // the tree has the clone-before-append repair: tie against the `…fx` model
+	// the option array of a fresh Runner (bash options have default states)
+	optBits string
 }
 
 func (e *c27Env) baseTok() string {
@@ -708,16 +710,43 @@ func (e *c27Env) line(op string, cs *c27Case, childToks []string) string {
 	if e.fx {
 		op += "fx"
 	}
-	return op + " " + b01(cs.Bg) + " " + e.baseTok() + " " + hx("/S") + " " + strconv.Itoa(len(c27OptNames)) + " " + strings.Join(cs.setupToks(), " ") + " | " + strings.Join(childToks, " ")
+	return op + " " + b01(cs.Bg) + " " + e.baseTok() + " " + hx("/S") + " " + e.optBits + " " + strings.Join(cs.setupToks(), " ") + " | " + strings.Join(childToks, " ")
+}
+
+// c27LeakRegion reports whether op, run in the child now, is in the region of the known finding
+// C27-append-inherited-array: `name+=word` (plain, subscripted, or through the declare family)
+// while name resolves to an indexed array whose element storage is shared with the parent.
+// It is decided on the real state (hook dump: d[0] parent, d[1] child), so the exclusion is exact.
+func c27LeakRegion(d []interp.VerifC27Runner, o *c27Op) bool {
+	if (o.K != "A" && o.K != "D") || !o.App || o.RhsKind != 1 {
+		return false
+	}
+	pl, pi := map[int]bool{}, map[int]bool{}
+	for _, sc := range d[0].Scopes {
+		for _, v := range sc.Vars {
+			pl[v.ListClass], pi[v.IdxClass] = true, true
+		}
+	}
+	pl[d[0].Params.Class], pl[d[0].DirStack.Class] = true, true
+	for _, sc := range d[1].Scopes {
+		for _, v := range sc.Vars {
+			if v.Name != o.Name {
+				continue
+			}
+			return v.Kind == int(expand.Indexed) && ((v.ListClass > 0 && pl[v.ListClass]) || (v.IdxClass > 0 && pi[v.IdxClass]))
+		}
+	}
+	return false
 }
 
 // runCase executes the case on the real code, emits the tie and spec lines and performs the Go
-// before/after comparison.  It returns the spec line (the witness) and whether the parent changed.
-func (e *c27Env) runCase(cs *c27Case, emit bool) (witness string, changed bool, note string) {
+// before/after comparison.  When next is non-nil the child steps are drawn one at a time from it
+// (given the current hook dump of parent and child) and recorded in cs.Child.
+// It returns the spec line (the witness) and whether the parent changed.
+func (e *c27Env) runCase(cs *c27Case, emit bool, next func(d []interp.VerifC27Runner) *c27Step) (witness string, changed bool, note string) {
 	c := e.c
 	var parent *interp.Runner
 	done := false
-	specLine := e.line("spec", cs, c27StepsToks(cs.Child))
 	snap := func() {
 		if done {
 			return
@@ -729,7 +758,16 @@ func (e *c27Env) runCase(cs *c27Case, emit bool) (witness string, changed bool, 
 			c.Op(e.line("run", cs, nil), c27Both(e.root, parent, child))
 		}
 		var toks []string
-		for i := range cs.Child {
+		for i := 0; ; i++ {
+			if next != nil {
+				st := next(interp.VerifC27Dump(parent, child))
+				if st == nil {
+					break
+				}
+				cs.Child = append(cs.Child, *st)
+			} else if i >= len(cs.Child) {
+				break
+			}
 			st := &cs.Child[i]
 			toks = append(toks, st.Toks()...)
 			f, err := c27Parse(st.Src(e.root))
@@ -757,7 +795,7 @@ func (e *c27Env) runCase(cs *c27Case, emit bool) (witness string, changed bool, 
 		}
 		after := c27Obs(e.root, parent)
 		if emit && note == "" {
-			c.Op(specLine, after)
+			c.Op(e.line("spec", cs, c27StepsToks(cs.Child)), after)
 		}
 		if before != after {
 			changed = true
@@ -767,21 +805,23 @@ func (e *c27Env) runCase(cs *c27Case, emit bool) (witness string, changed bool, 
 	var err error
 	parent, err = e.newRunner(snap)
 	if err != nil {
-		return specLine, false, "new: " + err.Error()
+		return "", false, "new: " + err.Error()
 	}
 	f, err := c27Parse(cs.setupSrc(e.root))
 	if err != nil {
-		return specLine, false, "parse setup: " + err.Error()
+		return "", false, "parse setup: " + err.Error()
 	}
 	ctx, cancel := context.WithTimeout(context.Background(), 5*time.Second)
 	defer cancel()
-	if pn := safely(func() { parent.Run(ctx, f) }); pn != "" {
-		return specLine, changed, "panic in setup: " + pn
+	pn := safely(func() { parent.Run(ctx, f) })
+	witness = e.line("spec", cs, c27StepsToks(cs.Child))
+	if pn != "" {
+		return witness, changed, "panic in setup: " + pn
 	}
 	if !done {
-		return specLine, false, "snapshot not reached"
+		return witness, false, "snapshot not reached"
 	}
-	return specLine, changed, note
+	return witness, changed, note
 }
 
 func c27Diff(a, b string) string {
@@ -831,10 +871,6 @@ var (
 
 type c27Gen struct {
 	r *Rand
-	// tracked (conservatively) per isolating level: names that currently hold an indexed array
-	// whose storage the current shell level has not (re)written itself.
-	inherited map[string]bool
-	avoidLeak bool
 }
 
 func (g *c27Gen) val() string    { return g.r.Pick(c27ValPool) }
@@ -885,12 +921,11 @@ func (g *c27Gen) mapRhs(o *c27Op) {
 // kinds tracks what the generator believes each name holds: ""/s scalar, a indexed, m assoc.
 type c27Kinds map[string]byte
 
-// op draws one operation.  child says whether it runs in the isolated child (where the leak
-// region `name+=word` on an inherited indexed array is avoided when avoidLeak is set).
-func (g *c27Gen) op(kinds c27Kinds, inFunc, child bool) c27Op {
+// op draws one operation; kinds only biases the choice towards operations that make sense.
+func (g *c27Gen) op(kinds c27Kinds, inFunc bool) c27Op {
 	r := g.r
 	name := r.Pick(c27Names)
-	for tries := 0; ; tries++ {
+	{
 		var o c27Op
 		switch k := r.Intn(100); {
 		case k < 14: // array assignment
@@ -983,29 +1018,13 @@ func (g *c27Gen) op(kinds c27Kinds, inFunc, child bool) c27Op {
 		default:
 			o = c27Op{K: "F", Name: r.Pick(c27FnNames), Body: r.Pick([]string{"echo hi", "a+=Q", "local v=1; b=(1 2)", ":"})}
 		}
-		if child && g.avoidLeak && g.leakRegion(&o, kinds) && tries < 50 {
-			continue
-		}
 		g.track(&o, kinds)
 		return o
 	}
 }
 
-// leakRegion: exactly the known finding C27-append-inherited-array — `name+=word` (also with a
-// subscript, and through declare/export/readonly/local) where name holds an indexed array that
-// this shell level inherited and has not rewritten.  Everything else is generated.
-func (g *c27Gen) leakRegion(o *c27Op, kinds c27Kinds) bool {
-	if (o.K != "A" && o.K != "D") || !o.App || o.RhsKind != 1 {
-		return false
-	}
-	return kinds[o.Name] == 'a' && g.inherited[o.Name]
-}
-
 func (g *c27Gen) track(o *c27Op, kinds c27Kinds) {
-	set := func(k byte) {
-		kinds[o.Name] = k
-		delete(g.inherited, o.Name)
-	}
+	set := func(k byte) { kinds[o.Name] = k }
 	switch o.K {
 	case "A", "D":
 		if o.K == "D" && o.Naked {
@@ -1041,9 +1060,7 @@ func (g *c27Gen) track(o *c27Op, kinds c27Kinds) {
 			}
 		}
 	case "U":
-		if o.SubKind == 2 && kinds[o.Name] == 'a' {
-			delete(g.inherited, o.Name)
-		} else if o.SubKind != 2 && o.Mode != "f" {
+		if o.SubKind != 2 && o.Mode != "f" {
 			delete(kinds, o.Name)
 		}
 	case "RA", "MF":
@@ -1053,56 +1070,51 @@ func (g *c27Gen) track(o *c27Op, kinds c27Kinds) {
 	}
 }
 
-func (g *c27Gen) steps(n int, kinds c27Kinds, inFunc, child bool) []c27Step {
+// step draws one step: a single operation or (child only) a function call group.
+func (g *c27Gen) step(kinds c27Kinds, inFunc, child bool) c27Step {
+	if child && g.r.Chance(12) {
+		st := c27Step{Call: true, Params: g.vals(2)}
+		k := 1 + g.r.Intn(3)
+		for j := 0; j < k; j++ {
+			o := g.op(kinds, true)
+			if o.K == "F" { // keep the group flat
+				o = c27Op{K: "SV", Name: "t", S: "v"}
+			}
+			st.Ops = append(st.Ops, o)
+		}
+		return st
+	}
+	return c27Step{Ops: []c27Op{g.op(kinds, inFunc)}}
+}
+
+func (g *c27Gen) steps(n int, kinds c27Kinds, inFunc bool) []c27Step {
 	var out []c27Step
 	for i := 0; i < n; i++ {
-		if child && g.r.Chance(12) {
-			st := c27Step{Call: true, Params: g.vals(2)}
-			k := 1 + g.r.Intn(3)
-			for j := 0; j < k; j++ {
-				o := g.op(kinds, true, child)
-				if o.K == "F" { // nested definitions inside __g are fine for the code but keep the group flat
-					o = c27Op{K: "SV", Name: "t", S: "v"}
-				}
-				st.Ops = append(st.Ops, o)
-			}
-			out = append(out, st)
-			continue
-		}
-		out = append(out, c27Step{Ops: []c27Op{g.op(kinds, inFunc, child)}})
+		out = append(out, g.step(kinds, inFunc, false))
 	}
 	return out
 }
 
-func (g *c27Gen) gen(thorough bool) c27Case {
+// genSetup draws the parent state; the child steps are drawn while the case runs.
+func (g *c27Gen) genSetup() (c27Case, c27Kinds) {
 	r := g.r
 	kinds := c27Kinds{}
-	g.inherited = map[string]bool{}
 	cs := c27Case{Bg: r.Chance(35)}
-	maxOps := 6
-	if thorough {
-		maxOps = 8
-	}
-	cs.Setup = g.steps(1+r.Intn(5), kinds, false, false)
+	cs.Setup = g.steps(1+r.Intn(5), kinds, false)
 	if r.Chance(35) {
 		cs.InFunc = true
 		cs.FParams = g.vals(2)
-		cs.FSetup = g.steps(r.Intn(4), kinds, true, false)
+		cs.FSetup = g.steps(r.Intn(4), kinds, true)
 	}
-	// everything indexed at this point is inherited storage for the child
-	for n, k := range kinds {
-		if k == 'a' {
-			g.inherited[n] = true
-		}
-	}
-	cs.Child = g.steps(1+r.Intn(maxOps), kinds, false, true)
-	return cs
+	return cs, kinds
 }
 
 // ---------------------------------------------------------------------------------------------
 // Whole-program search leg.
 
-var c27Contexts = []string{"paren", "cmdsubst", "procin", "procout", "pipe-first", "pipe-last", "bg-wait", "func-paren"}
+// "pipe-last" is a valid context name (corpus) but is not generated: the interpreter runs the
+// last stage of a pipeline in the parent shell itself (known finding C27-last-pipeline-stage).
+var c27Contexts = []string{"paren", "cmdsubst", "procin", "procout", "pipe-first", "pipe-mid", "bg-wait"}
 
 const c27DumpFn = `__d() { for __n in a b c m s t PWD OLDPWD; do declare -p $__n 2>/dev/null || echo "unset $__n"; done; set +o; shopt dotglob expand_aliases extglob globstar nocaseglob nullglob; alias; pwd; dirs; echo "$# $*"; declare -f fa; declare -f fb; }`
 
@@ -1120,6 +1132,8 @@ func c27Program(cs *c27Case, ctxName, root string) string {
 		wrapped = "echo hi > >(\ncat >/dev/null\n" + child + "\n)\nwait"
 	case "pipe-first":
 		wrapped = "{\n" + child + "\n} | cat >/dev/null"
+	case "pipe-mid":
+		wrapped = "echo hi | {\n" + child + "\n} | cat >/dev/null"
 	case "pipe-last":
 		wrapped = "echo hi | {\n" + child + "\n}"
 	case "bg-wait":
@@ -1127,7 +1141,7 @@ func c27Program(cs *c27Case, ctxName, root string) string {
 	case "func-paren":
 		wrapped = "__h() {\n" + child + "\n}\n(__h)\nunset -f __h"
 	}
-	body := "__d; echo =====\n" + wrapped + "\necho '#####'; __d"
+	body := "echo '%%%%%'; __d; echo =====\n" + wrapped + "\necho '#####'; __d"
 	parts := c27StepsSrc(cs.Setup, root)
 	if cs.InFunc {
 		fbody := append(c27StepsSrc(cs.FSetup, root), body)
@@ -1139,8 +1153,19 @@ func c27Program(cs *c27Case, ctxName, root string) string {
 	return c27DumpFn + "\n" + strings.Join(parts, "\n")
 }
 
+// c27SortedLines canonicalises a dump: Go map iteration order shows in `declare -p` of
+// associative arrays and in `alias`, so elements and lines are sorted.
 func c27SortedLines(s string) string {
 	l := strings.Split(strings.TrimSpace(s), "\n")
+	for i, line := range l {
+		if strings.HasPrefix(line, "declare -A") {
+			if a := strings.Index(line, "=("); a >= 0 && strings.HasSuffix(line, ")") {
+				el := strings.Fields(line[a+2 : len(line)-1])
+				sort.Strings(el)
+				l[i] = line[:a+2] + strings.Join(el, " ") + ")"
+			}
+		}
+	}
 	sort.Strings(l)
 	return strings.Join(l, "\n")
 }
@@ -1159,7 +1184,11 @@ func c27RunProgram(c *Ctx, prog string) (string, string, string) {
 	if res.Panic != "" {
 		return "", "", "panic"
 	}
-	before, rest, ok := strings.Cut(res.Stdout, "=====\n")
+	_, rest, ok := strings.Cut(res.Stdout, "%%%%%\n")
+	if !ok {
+		return "", "", "no-dump"
+	}
+	before, rest, ok := strings.Cut(rest, "=====\n")
 	if !ok {
 		return "", "", "no-dump"
 	}
@@ -1203,7 +1232,7 @@ func c27GrowTab(kind string, n int) string {
 var c27Sink any
 
 func c27CaseFromLine(l string) (c27Case, string, bool) {
-	// corpus format: the spec line itself: spec[fx] <bg> <base> <dir> <nopts> <setup toks> | <child toks>
+	// corpus format: the spec line itself: spec[fx] <bg> <base> <dir> <optbits> <setup toks> | <child toks>
 	// optionally prefixed by "ctx=<context> " for the whole-program leg.
 	ctxName := ""
 	if strings.HasPrefix(l, "ctx=") {
@@ -1267,13 +1296,19 @@ func c27(c *Ctx) {
 	os.MkdirAll(filepath.Join(root, "d2"), 0o755)
 	defer os.RemoveAll(root)
 	e := &c27Env{c: c, root: root}
+	if r0, err := e.newRunner(func() {}); err == nil {
+		r0.Reset()
+		for _, b := range interp.VerifC27Dump(r0)[0].Opts {
+			e.optBits += b01(b)
+		}
+	}
 
 	// Which variant of assignVal does the tree have?  The canonical witness decides.
 	witness := c27Case{
 		Setup: []c27Step{{Ops: []c27Op{{K: "A", Name: "a", RhsKind: 2, Elems: []c27Elem{{V: "x"}, {V: "y"}, {V: "z"}}}}}},
 		Child: []c27Step{{Ops: []c27Op{{K: "A", Name: "a", App: true, RhsKind: 1, S: "Q"}}}},
 	}
-	_, leaks, _ := e.runCase(&witness, false)
+	_, leaks, _ := e.runCase(&witness, false, nil)
 	e.fx = !leaks
 	c.Extra["assignval_variant"] = map[bool]string{true: "clone-before-append (repaired)", false: "in-place append (vars.go:418/420)"}[e.fx]
 
@@ -1282,25 +1317,17 @@ func c27(c *Ctx) {
 		c.Op("growtab i 24", c27GrowTab("i", 24))
 	}
 
-	check := func(cs *c27Case, tags ...string) {
-		w, changed, note := e.runCase(cs, true)
+	excluded := 0
+	check := func(cs *c27Case, next func(d []interp.VerifC27Runner) *c27Step, tags ...string) {
+		w, changed, note := e.runCase(cs, true, next)
 		nontrivial := false
-		for _, st := range cs.Child {
-			for _, o := range st.Ops {
-				switch o.K {
-				case "A", "D", "U", "RA", "MF":
-					nontrivial = true
-				case "SH", "SP", "CD", "PU", "PS", "PO", "O", "AL", "UA", "F":
-					nontrivial = true
-				}
-			}
-		}
 		tags = append(tags, fmt.Sprintf("bg=%v", cs.Bg), fmt.Sprintf("infunc=%v", cs.InFunc), fmt.Sprintf("childsteps=%d", len(cs.Child)))
 		for _, st := range cs.Child {
 			if st.Call {
 				tags = append(tags, "child-calls-function")
 			}
 			for _, o := range st.Ops {
+				nontrivial = nontrivial || o.K != "SV"
 				tags = append(tags, "op="+o.K)
 			}
 		}
@@ -1327,26 +1354,49 @@ func c27(c *Ctx) {
 			continue
 		}
 		if ctxName == "" {
-			check(&cs, "corpus")
+			check(&cs, nil, "corpus")
 		} else {
 			progs = append(progs, progCase{cs, ctxName, l})
 		}
 	}
 
-	g := &c27Gen{r: c.R, avoidLeak: !e.fx}
-	nTie := c.N
-	for i := 0; i < nTie; i++ {
-		cs := g.gen(c.Thorough())
-		check(&cs)
+	g := &c27Gen{r: c.R}
+	maxOps := 6
+	if c.Thorough() {
+		maxOps = 8
 	}
+	for i := 0; i < c.N; i++ {
+		cs, kinds := g.genSetup()
+		want := 1 + c.R.Intn(maxOps)
+		next := func(d []interp.VerifC27Runner) *c27Step {
+			if len(cs.Child) >= want {
+				return nil
+			}
+			for tries := 0; tries < 50; tries++ {
+				st := g.step(kinds, false, true)
+				bad := false
+				for j := range st.Ops {
+					// The exclusion (known finding C27-append-inherited-array), nothing else:
+					if !e.fx && c27LeakRegion(d, &st.Ops[j]) {
+						bad = true
+					}
+				}
+				if bad {
+					excluded++
+					continue
+				}
+				return &st
+			}
+			return nil
+		}
+		check(&cs, next)
+		// Every other case is also run as a whole program in one of the isolating contexts.
+		if i%2 == 0 && len(cs.Child) > 0 {
+			progs = append(progs, progCase{cs, c27Contexts[(i/2)%len(c27Contexts)], ""})
+		}
+	}
+	c.Extra["excluded_known_region"] = excluded
 
-	// Whole programs in every isolating context.
-	nProg := c.N / 2
-	for i := 0; i < nProg; i++ {
-		cs := g.gen(c.Thorough())
-		ctxName := c27Contexts[i%len(c27Contexts)]
-		progs = append(progs, progCase{cs, ctxName, ""})
-	}
 	type progRes struct{ before, after, skip string }
 	results := parallelMap(len(progs), 8, func(i int) progRes {
 		b, a, skip := c27RunProgram(c, c27Program(&progs[i].cs, progs[i].ctx, "/S"))
